@@ -306,16 +306,26 @@ yd_to_md(unsigned int y, int doy)
 }
 
 static struct md_s
-ywd_to_md(unsigned int y, int w, echs_wday_t d)
+ywd_to_md(unsigned int y, int of, int w, echs_wday_t d)
 {
-	const int nwk = (int)get_isowk(y);
+/* weekday D of week W of the ISO year Y+OF (for OF one of -1, 0, 1) if that
+ * day lies in the calendar year Y: the first week of a year may begin in
+ * the December before, its last one end in the January after */
+	const unsigned int iy = y + of;
+	const int nwk = (int)get_isowk(iy);
 	int yday;
 
 	if (UNLIKELY(!w || w > nwk || w < -nwk)) {
-		/* there's no such week in Y */
+		/* there's no such week in IY */
 		return (struct md_s){0U, 0U};
 	}
-	yday = (int)ywd_get_yday(y, w, d);
+	yday = (int)ywd_get_yday(iy, w, d);
+	/* count from Y's first day */
+	if (of > 0) {
+		yday += 365 + !(y % 4U);
+	} else if (of < 0) {
+		yday -= 365 + !(iy % 4U);
+	}
 	if (UNLIKELY(yday <= 0 || yday > 365 + !(y % 4U))) {
 		/* that day of week W belongs to the previous or next year */
 		return (struct md_s){0U, 0U};
@@ -574,8 +584,11 @@ lim_cand(
 
 			for (bitint_iter_t wi = 0UL;
 			     !okp && (k = bi63_next(&wi, wk), wi);) {
-				const struct md_s x = ywd_to_md(y, k, w);
-				okp = x.m == md.m && x.d == md.d;
+				for (int of = -1; !okp && of <= 1; of++) {
+					const struct md_s x =
+						ywd_to_md(y, of, k, w);
+					okp = x.m == md.m && x.d == md.d;
+				}
 			}
 			if (!okp) {
 				continue;
@@ -606,11 +619,15 @@ fill_yly_ywd(
 
 			if (dc <= MIR || (wd = (echs_wday_t)dc) > SUN) {
 				continue;
-			} else if (!(md = ywd_to_md(y, wk, wd)).m) {
-				continue;
 			}
-			/* otherwise it's looking good */
-			ass_bi383(cand, pack_cand(md.m, md.d));
+			/* week WK of Y and of the years next to it */
+			for (int of = -1; of <= 1; of++) {
+				if (!(md = ywd_to_md(y, of, wk, wd)).m) {
+					continue;
+				}
+				/* otherwise it's looking good */
+				ass_bi383(cand, pack_cand(md.m, md.d));
+			}
 		}
 	}
 	return;
